@@ -76,6 +76,12 @@ GROUPS += [
 ]
 GROUPS += [dict(GROUPS[-1], name='fpath_transform_11', tier='quick', timeout=900, defines={'VF_FABS_CONTRACT': 1, 'VF_FP_MAXN': 1, 'VF_FP_MAXNE': 1}, unwind=3,
                 bound='0..1 spine points, 0..1 path elements (loops unwound, unwinding assertions on); all doubles, both reflection states, scale_width on and off')]
+GROUPS += [
+    P('fpath_translate', 'translate', 'h_fpath_translate', tu='src/flexpath.cpp', roots=['gdstk::FlexPath::translate'], enforce='FlexPath__translate',
+      harness='harness/c10_fspine.c', replace_extern=[]),
+    P('fpath_rotate', 'rotate', 'h_fpath_rotate', tu='src/flexpath.cpp', roots=['gdstk::FlexPath::rotate'], enforce='FlexPath__rotate',
+      harness='harness/c10_fspine.c'),
+]
 TRUSTED_BASE = ['clang 14 AST', 'tools/cxx2c.py lowering', 'cbmc 6.11.0 (dfcc + SAT)', 'side-car contracts; spec/geom_spec.h']
 ASSUMPTIONS = ['cos and sin and the double operations + - * are uninterpreted functions (sound over-approximation: what holds for arbitrary functions holds for IEEE arithmetic)',
                'equality with the affine map is bit-exact against one canonical evaluation order (a re-association of the floating-point operations would be reported)']
